@@ -854,7 +854,7 @@ def run_rot(c, Pm):
                 prob = pr and 'Matrix3 -> Quaternion -> Matrix3: ' + pr
         return prob, {'impl': str(r)[:300]}, bool(np.any(mask)) or op == 'euler1'
     if op == 'twovec':
-        a, b = build(c['a'], Pm.Vector3), build(c['b'], Pm.Vector3)
+        a, b = build(c['a'], v3cls(c, Pm, 'a')), build(c['b'], v3cls(c, Pm, 'b'))
         A, B = arr_of(c['a']), arr_of(c['b'])
         s = np.broadcast_shapes(A.shape[:-1], B.shape[:-1])
         Ab, Bb = np.broadcast_to(A, s + (3,)), np.broadcast_to(B, s + (3,))
@@ -919,11 +919,17 @@ def qmat_ref(q):
     return np.stack([np.stack(r, axis=-1) for r in rows], axis=-2), n == 0
 
 
+def v3cls(c, Pm, key):
+    """the class in which a 3-vector operand is handed over: Vector3, or - for every other case - the generic Vector,
+    which the rotation constructors convert with as_vector3 (seeded change C16-M: that conversion lost the mask)"""
+    return Pm.Vector if (len(str(c.get(key, {}).get('vals', ''))) % 2) else Pm.Vector3
+
+
 def run_quat(c, Pm):
     op = c['op']
     if op == 'from_rotation':
         t, T, mt = angles_of(c['t'], Pm)
-        v = build(c['v'], Pm.Vector3)
+        v = build(c['v'], v3cls(c, Pm, 'v'))
         V = arr_of(c['v'])
         s = np.broadcast_shapes(T.shape, V.shape[:-1])
         Vb = np.broadcast_to(V, s + (3,))
@@ -1006,6 +1012,10 @@ def run_quat(c, Pm):
         r = Pm.Quaternion.from_parts(sc, ve)
         prob = compare(observe(sc), Pv[..., 0], mp) or compare(observe(ve), Pv[..., 1:], mp) or \
             compare(observe(r), Pv, mp)
+        if prob is None:        # the vector part handed over as a generic Vector (converted by as_vector3)
+            r2 = Pm.Quaternion.from_parts(sc, Pm.Vector(ve.values, ve.mask))
+            pr = compare(observe(r2), Pv, mp)
+            prob = pr and 'from_parts(scalar, generic Vector): ' + pr
         mask = mp
     else:
         raise KeyError(op)
